@@ -348,7 +348,8 @@ fn gen_atom(ch: &mut Choices, flags: &AlFlags, depth: usize) -> Re {
             if ch.chance(1, 2) {
                 Re::SlashB
             } else {
-                Re::Esc(ch.choose(&["\\B", "\\A", "\\z"]).to_string())
+                // anchors: `^`/`$` mean line start/end or text start/end depending on multi_line
+                Re::Esc(ch.choose(&["\\B", "\\A", "\\z", "^", "$", "$"]).to_string())
             }
         }
         _ => {
@@ -370,7 +371,7 @@ fn gen_cat(ch: &mut Choices, flags: &AlFlags, depth: usize, max: usize) -> Re {
     let mut v = vec![];
     for _ in 0..n {
         let a = gen_atom(ch, flags, depth);
-        let boundary = matches!(a, Re::SlashB) || matches!(&a, Re::Esc(s) if s == "\\B" || s == "\\A" || s == "\\z");
+        let boundary = matches!(a, Re::SlashB) || matches!(&a, Re::Esc(s) if s == "\\B" || s == "\\A" || s == "\\z" || s == "^" || s == "$");
         v.push(if boundary {
             a
         } else {
